@@ -635,6 +635,19 @@ def _canary(case, ctx, I, mk, ops, paths):
                 for (suf, x), (_, y) in zip(parts(ctx, v), parts(ctx, fr[key])):
                     if _numeric_witness(ctx, x, y) is not None:
                         return "killed"
+        # nothing distinguishes the wrong oracles: acceptable only if the code's outputs are all the same
+        # number at the probe points (e.g. identically zero by parity) - then the case is trivial, not vacuous
+        try:
+            vals = []
+            for k in (0, 1):
+                env = ctx.probe_env(k)
+                for key, v in fo[:64]:
+                    for _, x in parts(ctx, v):
+                        vals.append(ctx.numeric(x, env))
+            if vals and max(vals) - min(vals) < 1e-12:
+                return "trivial"
+        except Exception:  # noqa: BLE001
+            pass
         return "survived"
     finally:
         ctx.pc = []
